@@ -201,6 +201,38 @@ impl Drop for Lsp {
 }
 
 // ------------------------------------------------------------------------------------------------
+// Padding: the memory budget of the document layer is counted in MiB, so sessions that exercise it
+// need files of several hundred kB.  A padded text is `<text><PAD>` with PAD = one trailing comment
+// `(*~~~…~*)`; it is logged as `<hex of text> pad=<n>`.
+// ------------------------------------------------------------------------------------------------
+
+pub fn padded(text: &str, n: usize) -> String {
+    if n == 0 {
+        return text.to_string();
+    }
+    format!("{text}(*{}*)\n", "~".repeat(n))
+}
+
+/// `(text without the padding, length of the padding)`.
+fn split_pad(text: &str) -> (&str, usize) {
+    if let Some(body) = text.strip_suffix("*)\n") {
+        let run = body.bytes().rev().take_while(|b| *b == b'~').count();
+        if run >= 1000 && body[..body.len() - run].ends_with("(*") {
+            return (&text[..body.len() - run - 2], run);
+        }
+    }
+    (text, 0)
+}
+
+/// Hex of a text for the `#l` lines, the padding written as ` pad=<n>`.
+fn lhex(text: &str) -> String {
+    match split_pad(text) {
+        (_, 0) => hex(text.as_bytes()),
+        (base, n) => format!("{} pad={n}", hex(base.as_bytes())),
+    }
+}
+
+// ------------------------------------------------------------------------------------------------
 // The world as editor and disk know it
 // ------------------------------------------------------------------------------------------------
 
@@ -344,6 +376,10 @@ struct Sess<'a> {
     /// known finding C13-lsp-symlink-stale-key: a file the server knows through the symbolic link is
     /// not deleted / renamed away (the witness case sets this to walk into exactly that)
     allow_symlink_removal: bool,
+    /// `trust-lsp.toml` of the workspace when the session runs under a memory budget
+    /// (`[indexing] memory_budget_mb`): closed documents are then evicted, least recently used
+    /// first, and an evicted file leaves the analysis until something loads it again
+    config: Option<String>,
     lines: &'a mut Vec<String>,
     stats: &'a mut Vec<(String, u64)>,
 }
@@ -391,7 +427,7 @@ impl Sess<'_> {
                 doc.version += 1;
                 doc.text = text.clone();
                 let version = doc.version;
-                self.lines.push(format!("#l change {name} {}", hex(text.as_bytes())));
+                self.lines.push(format!("#l change {name} {}", lhex(text)));
                 self.l.notify(
                     "textDocument/didChange",
                     json!({"textDocument": {"uri": uri, "version": version}, "contentChanges": [{"text": text}]}),
@@ -482,7 +518,7 @@ impl Sess<'_> {
                 if self.w.disk.contains_key(name) || self.w.open.contains_key(name) {
                     return Ok(());
                 }
-                self.lines.push(format!("#l create {name} {}", hex(text.as_bytes())));
+                self.lines.push(format!("#l create {name} {}", lhex(text)));
                 self.w.write(name, text);
                 self.w.alias.insert(name.clone(), Alias::Canonical);
                 let uri = self.w.uri(name);
@@ -519,7 +555,7 @@ impl Sess<'_> {
                     return Ok(());
                 }
                 let uri = self.w.uri(name);
-                self.lines.push(format!("#l extedit {name} {}", hex(text.as_bytes())));
+                self.lines.push(format!("#l extedit {name} {}", lhex(text)));
                 self.w.write(name, text);
                 self.watched(&[(uri.clone(), 2)])?;
                 self.count("lsp_extedit");
@@ -626,9 +662,43 @@ impl Sess<'_> {
     /// Every file of the current state against a fresh server on the same directory: first pull
     /// diagnostics and documentSymbol of all files, then hovers (a request that gets no answer — a
     /// handler that panicked leaves the server silent — is a failed judgement of its own).
+    ///
+    /// Under a memory budget the file set of the analysis is by design the set of documents the
+    /// server HOLDS (open buffers + the closed documents that were not evicted): the hook request
+    /// tells which these are, the files it does not hold are moved out of the directory while the
+    /// fresh server (started WITHOUT the budget) lives, and only held files are judged.  So the
+    /// statement judged is: the answers equal those of a brand-new analysis of exactly the files the
+    /// document layer holds, with their current contents — a file that was evicted, or deleted,
+    /// contributes nothing.
     fn judge(&mut self, bin: &str, when: &str) -> Result<(), String> {
         let root = self.w.root.display().to_string();
-        let files = self.w.files();
+        let mut files = self.w.files();
+        let mut stashed: Vec<String> = Vec::new();
+        if self.config.is_some() {
+            let mut held = Vec::new();
+            for name in &files {
+                let uri = self.w.uri(name);
+                let v = self.l.request("trust-lsp/verifDocumentText", json!({ "uri": uri }))?;
+                if !v.is_null() {
+                    held.push(name.clone());
+                } else if self.w.open.contains_key(name) {
+                    self.lines.push(format!("#L {when} {name} open held FAIL"));
+                    self.lines.push(format!("#X error {}", hex(b"the server does not hold an open buffer")));
+                    self.stats.push(("lsp_judgements_failed".into(), 1));
+                    held.push(name.clone());
+                } else {
+                    stashed.push(name.clone());
+                }
+            }
+            self.lines.push(format!(
+                "#l held {when} {} evicted {}",
+                if held.is_empty() { "-".to_string() } else { held.join(",") },
+                if stashed.is_empty() { "-".to_string() } else { stashed.join(",") }
+            ));
+            self.stats.push(("lsp_budget_judgements".into(), 1));
+            self.stats.push(("lsp_budget_files_evicted_at_judgement".into(), stashed.len() as u64));
+            files = held;
+        }
         let mut inc: Vec<(String, FileAnswers)> = Vec::new();
         for name in &files {
             let uri = self.w.uri(name);
@@ -641,9 +711,53 @@ impl Sess<'_> {
                 }
             }
         }
+        let mut inc_hovers: Vec<Value> = Vec::new();
+        for name in &files {
+            let uri = self.w.uri(name);
+            let text = self.w.current_text(name).unwrap_or("").to_string();
+            match ask_hovers(&mut self.l, &uri, &text, &root) {
+                Ok(v) => inc_hovers.push(v),
+                Err(e) => {
+                    self.lines.push(format!("#L {when} {name} - hover FAIL no-answer"));
+                    self.lines.push(format!("#X error {}", hex(e.as_bytes())));
+                    return Err(e);
+                }
+            }
+        }
         // the fresh server must not find the index cache of the first one
         let _ = std::fs::remove_dir_all(self.w.root.join(".trust-lsp"));
-        let mut fresh = Lsp::start(bin, &root)?;
+        // … nor, under a budget, the files the first one does not hold, nor the budget itself
+        let stash_dir = PathBuf::from(format!("{root}-stash"));
+        if self.config.is_some() {
+            std::fs::create_dir_all(&stash_dir).map_err(|e| format!("stash: {e}"))?;
+            for name in &stashed {
+                std::fs::rename(self.w.path(name), stash_dir.join(name)).map_err(|e| format!("stash {name}: {e}"))?;
+            }
+            std::fs::rename(self.w.root.join("trust-lsp.toml"), stash_dir.join("trust-lsp.toml"))
+                .map_err(|e| format!("stash config: {e}"))?;
+        }
+        let fresh_result = self.judge_fresh(bin, when, &root, &files, &inc, &inc_hovers);
+        if self.config.is_some() {
+            for name in &stashed {
+                std::fs::rename(stash_dir.join(name), self.w.path(name)).map_err(|e| format!("unstash {name}: {e}"))?;
+            }
+            std::fs::rename(stash_dir.join("trust-lsp.toml"), self.w.root.join("trust-lsp.toml"))
+                .map_err(|e| format!("unstash config: {e}"))?;
+            let _ = std::fs::remove_dir_all(&stash_dir);
+        }
+        fresh_result
+    }
+
+    fn judge_fresh(
+        &mut self,
+        bin: &str,
+        when: &str,
+        root: &str,
+        files: &[String],
+        inc: &[(String, FileAnswers)],
+        inc_hovers: &[Value],
+    ) -> Result<(), String> {
+        let mut fresh = Lsp::start(bin, root)?;
         for (name, doc) in &self.w.open {
             let uri = self.w.uri(name);
             fresh.notify(
@@ -652,29 +766,20 @@ impl Sess<'_> {
             )?;
             fresh.request("trust-lsp/verifDocumentText", json!({ "uri": uri }))?;
         }
-        for (name, a) in &inc {
+        for (name, a) in inc {
             let uri = self.w.uri(name);
-            let f = ask_file(&mut fresh, &uri, &root)?;
+            let f = ask_file(&mut fresh, &uri, root)?;
             self.verdict(when, name, "diagnostics", &a.diagnostics, &f.diagnostics);
             self.verdict(when, name, "documentSymbol", &a.symbols, &f.symbols);
             if a.diagnostics.to_string().contains("\"message\"") {
                 self.stats.push(("lsp_files_with_diagnostics".into(), 1));
             }
         }
-        for name in &files {
+        for (name, hx) in files.iter().zip(inc_hovers) {
             let uri = self.w.uri(name);
             let text = self.w.current_text(name).unwrap_or("").to_string();
-            let hy = ask_hovers(&mut fresh, &uri, &text, &root)?;
-            let hx = match ask_hovers(&mut self.l, &uri, &text, &root) {
-                Ok(v) => v,
-                Err(e) => {
-                    self.lines.push(format!("#L {when} {name} - hover FAIL no-answer"));
-                    self.lines.push(format!("#X error {}", hex(e.as_bytes())));
-                    self.lines.push(format!("#X fresh {}", hex(hy.to_string().as_bytes())));
-                    return Err(e);
-                }
-            };
-            self.verdict(when, name, "hover", &hx, &hy);
+            let hy = ask_hovers(&mut fresh, &uri, &text, root)?;
+            self.verdict(when, name, "hover", hx, &hy);
             if hx.to_string().contains("\"contents\"") {
                 self.stats.push(("lsp_files_with_hover_answer".into(), 1));
             }
@@ -692,17 +797,38 @@ impl Sess<'_> {
 
 const NEW_NAMES: [&str; 6] = ["moved.st", "lib2.st", "Lib.st", "zz_last.st", "a_first.st", "unit.st"];
 
+/// Configuration and padding of a session under a memory budget: 1 or 2 MiB, eviction down to
+/// 1..100 % of it, and per role a padding of 0 / 300..900 kB such that at least two files are big
+/// (evictions need closed documents of more than the budget in total).
+pub fn budget_plan(rng: &mut Rng, nroles: usize) -> (String, Vec<usize>) {
+    let mb = if rng.chance(1, 4) { 2 } else { 1 };
+    let percent = *rng.pick(&[1u8, 40, 50, 75, 80, 80, 100]);
+    let mut pads: Vec<usize> = (0..nroles)
+        .map(|_| if rng.chance(1, 2) { 0 } else { *rng.pick(&[300_000usize, 450_000, 600_000, 900_000]) })
+        .collect();
+    // the library and one more file are always big: its users then see it come and go
+    pads[0] = *rng.pick(&[450_000usize, 600_000, 900_000]);
+    let k = 1 + rng.below(nroles as u64 - 1) as usize;
+    if pads[k] == 0 {
+        pads[k] = *rng.pick(&[450_000usize, 600_000, 900_000]);
+    }
+    (format!("[indexing]\nmemory_budget_mb = {mb}\nevict_to_percent = {percent}\n"), pads)
+}
+
+/// `pads`: padding per role (empty: none), see `budget_plan`.
 pub fn gen_script(
     rng: &mut Rng,
     roles: &[Role],
     steps: usize,
     mutate: &dyn Fn(&mut Rng, &str) -> String,
+    pads: &[usize],
 ) -> (Vec<(String, String)>, Vec<LOp>) {
+    let pad_of = |role: usize| pads.get(role).copied().unwrap_or(0);
     // initial disk state: most roles present
     let mut files: Vec<(String, String, usize)> = Vec::new(); // name, text, role
     for (ri, r) in roles.iter().enumerate() {
         if ri < 2 || rng.chance(2, 3) {
-            files.push((r.file.to_string(), rng.pick(&r.variants).clone(), ri));
+            files.push((r.file.to_string(), padded(rng.pick(&r.variants[..]).as_str(), pad_of(ri)), ri));
         }
     }
     let initial: Vec<(String, String)> = files.iter().map(|(n, t, _)| (n.clone(), t.clone())).collect();
@@ -717,11 +843,8 @@ pub fn gen_script(
     let mid = steps / 2;
     let new_text = |rng: &mut Rng, role: usize, mutate: &dyn Fn(&mut Rng, &str) -> String| -> String {
         let base = rng.pick(&roles[role].variants).clone();
-        if rng.chance(1, 4) {
-            mutate(rng, &base)
-        } else {
-            base
-        }
+        let text = if rng.chance(1, 4) { mutate(rng, &base) } else { base };
+        padded(&text, pad_of(role))
     };
     for step in 0..steps {
         if step == mid && rng.chance(1, 2) {
@@ -861,8 +984,41 @@ pub fn symlink_delete_witness() -> (Vec<(String, String)>, Vec<LOp>) {
     )
 }
 
+/// Fixed regression case of the memory budget (1 MiB): the library is the least recently used closed
+/// document when a second big file appears, so it is evicted; then it is deleted on disk and the
+/// watcher says so.  Its user is judged after each step.
+pub fn budget_witness() -> (Vec<(String, String)>, Vec<LOp>, String) {
+    let (initial, _) = alias_witness();
+    let initial: Vec<(String, String)> = initial
+        .into_iter()
+        .map(|(n, t)| if n == "lib.st" { (n, padded(&t, 600_000)) } else { (n, t) })
+        .collect();
+    let filler = padded("PROGRAM Aux\nVAR\n    flag : BOOL;\nEND_VAR\nflag := TRUE;\nEND_PROGRAM\n", 600_000);
+    (
+        initial,
+        vec![
+            LOp::Open("main.st".into()),
+            LOp::Judge,
+            LOp::Create("aux.st".into(), filler),
+            LOp::Judge,
+            LOp::Delete("lib.st".into()),
+            LOp::Judge,
+        ],
+        "[indexing]\nmemory_budget_mb = 1\n".to_string(),
+    )
+}
+
 /// `witness`: 0 = generated case, 1 = regression case, 2 = witness of the open known finding.
-pub fn run_case(bin: &str, n: u64, wsbase: &Path, initial: &[(String, String)], script: &[LOp], witness: u8) -> LspCaseOut {
+/// `config`: contents of `<root>/trust-lsp.toml` (sessions under a memory budget), or none.
+pub fn run_case(
+    bin: &str,
+    n: u64,
+    wsbase: &Path,
+    initial: &[(String, String)],
+    script: &[LOp],
+    witness: u8,
+    config: Option<&str>,
+) -> LspCaseOut {
     let mut lines = vec![format!("case {n}"), "stream lsp".to_string()];
     if witness == 1 {
         lines.push("tag witness".into());
@@ -881,10 +1037,15 @@ pub fn run_case(bin: &str, n: u64, wsbase: &Path, initial: &[(String, String)], 
         let mut w = World { root: root.clone(), disk: BTreeMap::new(), open: BTreeMap::new(), alias: BTreeMap::new() };
         for (name, text) in initial {
             w.write(name, text);
-            lines.push(format!("#l disk {name} {}", hex(text.as_bytes())));
+            lines.push(format!("#l disk {name} {}", lhex(text)));
+        }
+        if let Some(c) = config {
+            std::fs::write(root.join("trust-lsp.toml"), c).map_err(|e| format!("write config: {e}"))?;
+            lines.push(format!("#l config {}", hex(c.as_bytes())));
+            stats.push(("lsp_budget_sessions".into(), 1));
         }
         let l = Lsp::start(bin, &root.display().to_string())?;
-        let mut s = Sess { l, w, allow_symlink_removal: witness == 2, lines, stats };
+        let mut s = Sess { l, w, allow_symlink_removal: witness == 2, config: config.map(|c| c.to_string()), lines, stats };
         let mut judged = 0;
         let mut result = Ok(());
         for op in script {
@@ -905,6 +1066,7 @@ pub fn run_case(bin: &str, n: u64, wsbase: &Path, initial: &[(String, String)], 
         }
         s.l.shutdown();
         let _ = std::fs::remove_dir_all(&base);
+        let _ = std::fs::remove_dir_all(format!("{}-stash", root.display()));
         result
     };
     let mut first_lines = lines.clone();
